@@ -1,4 +1,4 @@
-import RV.Proofs.BinArch
+import RV.Proofs.BinWriter
 /-
   C06 — every archive snapshot equals the live state when taken, under any history.
 
@@ -89,6 +89,19 @@ theorem c06_append_keeps_chain (hdr : Bytes) (fs0 : List Field) (ds : List (List
     overwrite (archI hdr fs0 ds) ((archI hdr fs0 ds).length - 12) (pendingData ds dn)
       = archI hdr fs0 (ds ++ [dn]) :=
   append_shape hdr fs0 ds dn
+
+/-- **the archive of a history is what the write protocol produces**: saving `fs0` to a fresh file and
+    running `reb_simulation_save_to_file`'s append path (scan of the first blob, corruption test — which
+    never fires on a well-formed archive —, patch of the previous trailer, delta, END, new trailer) once per
+    serialisation yields `archOf`, the archive the theorems below talk about -/
+theorem c06_appends_is_archive (v : Variant) (cmp : Nat → Bytes → Bytes → Bool) (hdr : Bytes) (fs0 : List Field)
+    (strm : List (Bytes × List Field × Bytes))
+    (h : HistOK v cmp hdr fs0 (strm.map (·.2.1)))
+    (hv : v.f1 = true ∨ ∀ b ∈ strm.map (·.2.1), ¬ Vanishes fs0 b)
+    (h64 : ∀ s ∈ strm, s.1.length = 64) (hn : strm.length < 4294967296) :
+    appends v cmp (encStream hdr fs0) (strm.map streamOf)
+      = some (archOf v cmp hdr fs0 (strm.map (·.2.1))) :=
+  appends_archOf v cmp hdr fs0 strm h hv h64 hn
 
 /-- **archive theorem — snapshots, full statement** (source with fixes/F1.diff: `v.f1 = true`): for every
     history `fs0, bs` (fields may appear, vanish, grow, shrink, reappear), loading snapshot `j+1` of the
